@@ -81,16 +81,26 @@ def safe_eval(sub, case):
         out = sub.evaluate(case)
     except HarnessError:
         raise
-    except RecursionError as e:
-        out = Outcome()
-        out.fail('libexc:RecursionError', repr(e)[:200])
-    except Exception as e:  # noqa
+    except Exception as e0:
+        if type(e0).__name__ == 'BuilderInvalid':
+            # the value builder (constructor / operand program) hit an undocumented library error: that is C09's subject;
+            # every other property counts the case and does not assert it
+            out = Outcome()
+            out.skipped = 'builder_invalid'
+            out.label('builder_invalid')
+            return out
+        if isinstance(e0, RecursionError):
+            out = Outcome()
+            out.fail('libexc:RecursionError', repr(e0)[:200])
+            return out
+        e = e0
         kind, where = lib_frame(e)
         if kind == 'harness':
             raise HarnessError('harness exception in %s on case %s:\n%s' % (
                 sub.name, json.dumps(case, default=str)[:2000], traceback.format_exc()))
         out = Outcome()
         out.fail('libexc:%s@%s' % (type(e).__name__, where), '%s: %s' % (type(e).__name__, e))
+        return out
     return out
 
 
